@@ -1,3 +1,4 @@
+import HttpcoreModel.Props.Wrap
 import HttpcoreModel.Pool
 /-!
 # C04 — The connection limit is never exceeded (pool-pass theorems)
